@@ -1,5 +1,19 @@
 // C06 correspondence harness: runs the real pomelo codec on generated and
 // replayed op lines and records one observation per op.
+//
+// Ops:
+//
+//	dict route=<hex> code=N            SetDictionary with a single-entry map        -> ok | dup
+//	dictm e=<hex>:N e=...              SetDictionary, several entries, no duplicates -> ok | dup
+//	dictget                            GetDictionary, sorted by code
+//	enc|rt typ= id= route= data= err= comp= defl=   Encode [+ Decode]
+//	dec data=<hex> [infl=...]          message.Decode
+//	penc typ= data= | pdec data= | prt p=T:<hex>... | plimit typ= n=   packet encoder/decoder
+//	pdec2 a=<hex> b=<hex>              two Decode calls on ONE decoder: "<a> | <b> | <a read again>"
+//	pdecs data=<hex> | pchk k=I        one decoder for the whole run; the last 8 results stay alive, pchk reads one again
+//	sess data=<hex> [infl=...]         new ClientSession, handshake + ack, ONE Data packet staged -> working
+//	sgo                                the session reads the staged packet -> delivered id= route= data= | closed
+//	<harness-exit ...>                 (replays only) the process died here: runs the staged session
 package c06
 
 import (
@@ -860,8 +874,8 @@ func TestRun(t *testing.T) {
 	run(fmt.Sprintf("dict route=%s code=255", hx.Hex([]byte("fresh.route"))))
 	// keys with surrounding blanks are stored trimmed (in both maps); an all-blank key is the empty route
 	run(fmt.Sprintf("dict route=%s code=300", hx.Hex([]byte(" room.enter "))))
-	run(fmt.Sprintf("dict route=%s code=301", hx.Hex([]byte("\t\r\n room.enter"))))    // dup of the trimmed route
-	run(fmt.Sprintf("dict route=%s code=302", hx.Hex([]byte(" \t\n\r"))))              // stored as ""
+	run(fmt.Sprintf("dict route=%s code=301", hx.Hex([]byte("\t\r\n room.enter")))) // dup of the trimmed route
+	run(fmt.Sprintf("dict route=%s code=302", hx.Hex([]byte(" \t\n\r"))))           // stored as ""
 	run(fmt.Sprintf("dictm e=%s:303 e=%s:304 e=%s:305", hx.Hex([]byte("room.leave\n")), hx.Hex([]byte("\tin ner ")), hx.Hex([]byte("plain"))))
 	run("dictget")
 	for _, r := range []string{"room.enter", "", "room.leave", "in ner", "plain", " room.enter "} {
@@ -994,7 +1008,6 @@ func TestRun(t *testing.T) {
 	}
 	run("dictget")
 }
-
 
 // TestExhaustive3 (thorough tier): every byte string of length 3 through
 // message.Decode in-process; any panic is recorded, and every 97th input
